@@ -3,12 +3,12 @@ CONSTANTS
   M = {1}
   MaxN = 3
   Delays = {0, 1}
-  Actives = {0, 1, 2}
+  Actives = {0, 2}
   Starts = {2}
   InitBlocks = {1, 3}
   MaxMsgs = 0
   Slack = 1
-  Faults = {"start", "delay", "initiate", "waiter", "next"}
+  Faults = {"next"}
   BadMsgs = {FALSE}
   Prompt = FALSE
 INVARIANTS TypeOK BlockExactInit BlockExactEnd FinishExact NeverEarly InOrder RegisteredIff FailureOutcome FifoNoLoss NotToEarlierState Lockstep LockstepPrompt PromptExact
